@@ -449,6 +449,41 @@ class SynthRunTestWith(SynthBase):
         self._body()
 
 
+def _async_factory(case, handlers=None, last_resort=None):
+    """AsynchronousDeferredRunTest on a fresh virtual-time reactor (harness/vreactor.py), generous timeout, no log
+    capture detail: the synthesised programs are synchronous, so the Twisted runner must behave like RunTest."""
+    from testtools.twistedsupport import AsynchronousDeferredRunTest
+
+    from .vreactor import VReactor
+
+    return AsynchronousDeferredRunTest(
+        case, handlers, last_resort, reactor=VReactor(), timeout=1000, store_twisted_logs=False
+    )
+
+
+def _syncd_factory(case, handlers=None, last_resort=None):
+    from testtools.twistedsupport import SynchronousDeferredRunTest
+
+    return SynchronousDeferredRunTest(case, handlers, last_resort)
+
+
+class SynthAsync(SynthBase):
+    """Same test run by AsynchronousDeferredRunTest (C02/C03/C05 are stated for every test, whatever runs it)."""
+
+    @testtools.run_test_with(_async_factory)
+    def test_body(self):
+        self._body()
+
+
+class SynthSyncD(SynthBase):
+    @testtools.run_test_with(_syncd_factory)
+    def test_body(self):
+        self._body()
+
+
+RUNNER_CLASSES = {"async": SynthAsync, "syncd": SynthSyncD}
+
+
 class SynthExpectedFailure(SynthBase):
     """The test method carries unittest's expectedFailure decorator."""
 
